@@ -267,7 +267,7 @@ func judgeC17(c c17Case) (v core.Verdict) {
 
 func TestC17(t *testing.T) {
 	core.Run(t, "C17",
-		"isset over 1-4 access paths (identifier, field, index and chain expressions; valid or invalid at any depth; nil pointers, nil maps, nil and typed-nil interfaces, absent keys, zero numbers, empty strings, false; literal and variable indexes, some undefined; keys of interface-keyed maps that exist under one dynamic type only; undefined root) into 8 zoo variants, methods named without a call, written isset(a, b) / isset: a, b / v | isset, plus two-value look-ups (v, ok := m[k]; v, ok = m[k]; with _ for v; as the header of an if) on maps with present, absent and present-but-nil entries; also: fields promoted through (nested) embedded pointers whose interface{} value is a typed nil pointer / a nil map; a map keyed by an array of interfaces; round 10: slots of a named empty interface type holding typed nils; integer keys on string-keyed maps; oracle = independent existence evaluator; non-trivial = exactly one failing argument, or a zero-but-present value, or a nil pointer",
+		"isset over 1-4 access paths (identifier, field, index and chain expressions; valid or invalid at any depth; nil pointers, nil maps, nil and typed-nil interfaces, absent keys, zero numbers, empty strings, false; literal and variable indexes, some undefined; keys of interface-keyed maps that exist under one dynamic type only; undefined root) into 8 zoo variants, methods named without a call, written isset(a, b) / isset: a, b / v | isset, plus two-value look-ups (v, ok := m[k]; v, ok = m[k]; with _ for v; as the header of an if) on maps with present, absent and present-but-nil entries; also: fields promoted through (nested) embedded pointers whose interface{} value is a typed nil pointer / a nil map; a map keyed by an array of interfaces; round 10: slots of a named empty interface type holding typed nils; integer keys on string-keyed maps; round 11: maps with 64-bit integer keys indexed with numbers that change sign when converted; slices as indexes of an array-keyed map; oracle = independent existence evaluator; non-trivial = exactly one failing argument, or a zero-but-present value, or a nil pointer",
 		genC17, judgeC17)
 }
 
